@@ -129,6 +129,14 @@ def rename_history(rng, x):
                 x.name = "renamed_%d" % rng.randrange(100000)
         except ValueError:
             pass
+    if x.name and x.name.swapcase() != x.name and rng.random() < 0.08:
+        # renamed to a case variant of its own name: it answers to the new spelling only (exactly)
+        old = x.name
+        try:
+            x.name = old.swapcase()
+            OLD_VALUES.append(old)
+        except ValueError:
+            pass
     if x.name and rng.random() < 0.2:
         final = x.name
         old = "was_%s_%d" % (final[:6], rng.randrange(1000))
@@ -438,7 +446,7 @@ def run_case(ctx, i, rng):
     sdn.namespace_manager.default = policy
     try:
         n = gen_ir.generate(rng, profile="edif" if i % 3 else "any", style="mixed", ndefs=rng.randint(3, 7), share=0.5,
-                            max_children=4, outside=True)
+                            max_children=4, outside=True, big=(i % 24 == 5))
         graft = None
         if i % 3 == 1:
             # part of the netlist was built stand-alone under the other naming policy and then added (policy re-applied)
